@@ -24,6 +24,7 @@ ASSUMPTIONS = [
     'the value decoders of PMSI, TUNNEL_ENCAP, AIGP, BGP-LS, PREFIX_SID are outside the Lean model (oracle and generic corruptions only)',
     'the content of the AS_PATH rebuilt by merge_attributes is not compared here (C02)',
     'Python recursion depth is not modelled: bodies with more than 900 attributes are judged by the oracle only',
+    'an attribute whose flags octet has the Partial bit or one of the four unused bits set where ExaBGP does not expect it is handled by ExaBGP as a flag conflict (stricter than RFC 4271 4.3 / RFC 7606 3.c, which only name the Optional and Transitive bits); the oracle neither calls it malformed nor counts its loss',
     'which of the five repairs (assemble, overrun, nh4, seg0, flagCls) are present in /repo is probed on five fixed inputs; the model variant with those switches is the one compared',
 ]
 TRUSTED_EXTRA = ['RFC reading in harness/rfc7606rig.py (rfc_walk, wf_value, wf_flags, RFC_CLASS) used by the oracle']
@@ -107,10 +108,11 @@ def judge_view(view_kept: dict[int, str] | None, view_keys: set[str] | None, occ
         if cls in ('W', 'R'):
             bad.append((ccode, why, f'malformed {name} {detail} and the routes are announced'))
             continue
+        again = sum(1 for x in occ if x['code'] == code) > 1  # a later occurrence may legitimately stand in the result
         if view_kept is not None:
-            present = code in view_kept
+            present = code in view_kept and (not again or view_kept[code] in (o['val'].hex(), '?'))
         else:
-            present = JSON_KEY.get(code) in (view_keys or set()) and code != 18 and not (code == 7 and 18 in codes)
+            present = JSON_KEY.get(code) in (view_keys or set()) and code != 18 and not (code == 7 and 18 in codes) and not again
         if present:
             bad.append((ccode, why, f'malformed {name} {detail} is part of the announced route'))
     if cut:
@@ -120,6 +122,8 @@ def judge_view(view_kept: dict[int, str] | None, view_keys: set[str] | None, occ
             code = o['code']
             if code not in rig.FLAG_SPEC or code in (14, 15):
                 continue
+            if o['flag'] & 0x2F:
+                continue  # Partial or unused flag bits: ExaBGP treats them as a flag conflict (see ASSUMPTIONS)
             if view_kept is not None:
                 if code == 17 and 2 in view_kept:
                     continue  # merged into AS_PATH
@@ -204,14 +208,14 @@ def make_cases(ctx: Ctx) -> list[dict]:
                     continue
                 if code == 3 and kind == 'mp':
                     continue
-                if code == 14 and kind != 'mp':
+                if code == 14 and kind == 'v4':
                     continue
                 if code == 15 and kind == 'v4':
                     continue
                 bases.append(rig.minimal_base(asn4, kind, code))
                 for k in rig.KINDS:
                     plan.append((len(bases) - 1, code, k))
-    nrand = 250 if ctx.tier == 'quick' else 12000
+    nrand = 2000 if ctx.tier == 'quick' else 40000
     for _ in range(nrand):
         asn4 = rng.random() < 0.5
         kind = rng.choice(['v4', 'v4', 'mp', 'v4mp'])
@@ -238,7 +242,7 @@ def make_cases(ctx: Ctx) -> list[dict]:
             continue
         cases.append({'asn4': b['asn4'], 'nlri': b['kind'], 'code': code, 'kind': kind, 'body': rig.join_body(wd, blk, nlri), 'origin': 'minimal' if bi < len(bases) - nrand else 'random'})
     # a malformed stream: random single-byte edits of the attribute block, and blocks of random bytes
-    nfuzz = 150 if ctx.tier == 'quick' else 6000
+    nfuzz = 1500 if ctx.tier == 'quick' else 40000
     for _ in range(nfuzz):
         bi = rng.randrange(len(bases))
         wd, block, nlri = rig.split_body(bodies[bi])
@@ -280,7 +284,7 @@ def minimal_cases(S: dict[bool, rig.Session]) -> list[tuple[dict, list[dict]]]:
     for nlri in ('v4', 'mp', 'v4mp'):
         for asn4 in (True, False):
             for code in CODES:
-                if (code == 3 and nlri == 'mp') or (code == 14 and nlri != 'mp') or (code == 15 and nlri == 'v4'):
+                if (code == 3 and nlri == 'mp') or (code == 14 and nlri == 'v4') or (code == 15 and nlri == 'v4'):
                     continue
                 bases.append(rig.minimal_base(asn4, nlri, code))
                 plan.append(code)
@@ -347,7 +351,7 @@ def run(ctx: Ctx) -> None:
         cases = load_corpus() + make_cases(ctx)
         results = []
         for case in cases:
-            if ctx.time_left() < 8:
+            if ctx.time_left() < (10 if ctx.tier == 'quick' else 90):
                 ctx.notes.append(f'budget reached after {ctx.evaluations} cases of {len(cases)}')
                 break
             s = S[case['asn4']]
@@ -393,6 +397,10 @@ def run(ctx: Ctx) -> None:
                     ctx.count('beyond-recursion-depth (oracle only)')
                 elif m == 'unmodelled':
                     ctx.count('model:unmodelled')
+                elif u['out'] == 'raise error' and has17 and any(o['code'] == 2 for o in occ):
+                    # struct.error out of merge_attributes (F20: AS4_PATH with an AS number above 65535 re-packed
+                    # with 2-byte AS numbers): the content of the merge is outside this model; the oracle reports it
+                    ctx.count('merge raises struct.error (F20, oracle only)')
                 else:
                     cm, ci = rig.canon_model(m, has17), rig.canon_impl(u, has17)
                     if cm != ci:
